@@ -14,6 +14,7 @@ import Driver.Provider
 import Driver.C12
 import Driver.C14
 import Driver.C17
+import Driver.C18
 open Lean Driver
 
 def handlers : List (String × Handler) := [
@@ -33,6 +34,7 @@ def handlers : List (String × Handler) := [
   ("C12", Driver.C12.handle),
   ("C14", Driver.C14.handle),
   ("C17", Driver.C17.handle),
+  ("C18", Driver.C18.handle),
   ("C19", fun j => match getStr j "world" with
     | .ok "oauth1" => Driver.C12.handle j
     | _ => Driver.Provider.handle j)
